@@ -236,7 +236,16 @@ def run(ctx):
         ctx.broke('translator', 'c11.translate(refdom.py, mesh/*.py)', e)
         gen_ok = False
     if gen_ok:
-        ctx.compile_dyn(['gen/C11Refdom.v'] + ctx.copy_dyn())
+        try:      # the option plumbing of nodes_satisfying / facets_satisfying / elements_satisfying (translator shared with C07)
+            from . import c07 as C07
+            fs, ns = C07.translate_satisfying()
+            ctx.write_gen('C11Wrap', '(* GENERATED by vlib/props/c11.py from skfem/mesh/mesh.py, the x_satisfying selectors — do not edit *)\n'
+                          'From Coq Require Import List Arith.\nRequire Import Model.C07_Query.\n' + C07.SATISFYING_DEFS.format(fs=fs, ns=ns))
+        except TranslateError as e:
+            ctx.broke('translator', 'c07.translate_satisfying(mesh.py)', e)
+            gen_ok = False
+    if gen_ok:
+        ctx.compile_dyn(['gen/C11Refdom.v', 'gen/C11Wrap.v'] + ctx.copy_dyn())
         ctx.prove()
     rng = np_seed(ctx, 11)
     if gen_ok:
